@@ -1,5 +1,6 @@
 import XmppModel.Model.Correlate
 import XmppModel.Lemmas.Correlate
+import XmppModel.Lemmas.CorrAccount
 import XmppModel.Model.Muc
 import XmppModel.Lemmas.Muc
 import XmppModel.Model.IbbReader
@@ -169,6 +170,52 @@ theorem C06_nothing_dropped {cfg s} (hr : Reach cfg s) : s.dropped = [] := by
   induction hr with
   | init => rfl
   | step _ hs ih => rw [stepEq hs]; exact ih
+
+/-! ### every stanza read is accounted for (round E, review A C06-1)
+
+The clauses "a response reaches at most one caller", "never a caller with a different id" and
+"responses nobody waits for go to the handler" as ONE invariant over all reachable states (any
+number of requesters, any schedule) — not a statement about one branch of `step`. -/
+
+/-- in every reachable state every stanza the serve loop has read is in exactly one of three
+places: the handler got it (and no call holds it), exactly one call holds it (and the handler did
+not get it), or the serve loop is offering it right now (and neither has it) -/
+theorem C06_every_stanza_accounted {cfg s} (hr : Reach cfg s) (k : Nat) (hk : k < s.hist.length) :
+    (k ∈ s.hlog ∧ ∀ i, (s.rpc i).held ≠ some k) ∨
+    (∃ i, (s.rpc i).held = some k ∧ k ∉ s.hlog ∧ ∀ i', (s.rpc i').held = some k → i' = i) ∨
+    (∃ j, s.spc = .offering j k ∧ k ∉ s.hlog ∧ ∀ i, (s.rpc i).held ≠ some k) := by
+  have hB := (inv_reach hr).2
+  rcases accounted_reach hr k hk with h1 | ⟨i, h2⟩ | ⟨j, h3⟩
+  · exact Or.inl ⟨h1, fun i hi => (hB.holdMatch i k hi).2.1 h1⟩
+  · exact Or.inr (Or.inl ⟨i, h2, (hB.holdMatch i k h2).2.1, fun i' hi' => hB.uniq i' i k hi' h2⟩)
+  · obtain ⟨_, _, _, hnl, _, hnh⟩ := hB.offer j k h3
+    exact Or.inr (Or.inr ⟨j, h3, hnl, hnh⟩)
+
+/-- once the handler has a stanza it keeps it: whatever happens afterwards (late calls with that
+id, cancellations, closes) the stanza is never handed to a caller -/
+theorem C06_handled_stays_handled {cfg} {k : Nat} :
+    ∀ {as s s'}, Reach cfg s → run cfg s as = some s' → k ∈ s.hlog → k ∈ s'.hlog ∧ ∀ i, (s'.rpc i).held ≠ some k := by
+  intro as
+  induction as with
+  | nil =>
+    intro s s' hr hrun h
+    simp [run] at hrun; subst hrun
+    exact ⟨h, fun i hi => ((inv_reach hr).2.holdMatch i k hi).2.1 h⟩
+  | cons a as ih =>
+    intro s s' hr hrun h
+    simp only [run] at hrun
+    split at hrun
+    · rename_i s1 hs1
+      exact ih (Reach.step hr hs1) hrun (hlog_mono hs1 h)
+    · simp at hrun
+
+/-- non-vacuity: one run with a stanza in each of the three places (0 handled: unknown id; 1 held
+by requester 0; 2 being offered to requester 1) -/
+example : ∃ s, run { ids := fun i => i, kinds := fun _ => .iq, derived := true } init
+    [.read ⟨.iq, 7, true, .stream, false⟩, .call 0, .sendOk 0, .call 1, .sendOk 1,
+     .read ⟨.iq, 0, true, .stream, false⟩, .recv 0, .dereg 0, .close 0, .read ⟨.iq, 1, true, .stream, false⟩] = some s ∧
+    s.hlog = [0] ∧ (s.rpc 0).held = some 1 ∧ s.spc = .offering 1 2 := by
+  simp [run, step, init, lookup, upd, nsMatch, RPc.held]
 
 /-! ### progress -/
 
